@@ -776,3 +776,47 @@ Proof.
   rewrite beq_refl, dc_lookup_app.
   destruct (dc_lookup x (own_sets c h2)); [reflexivity|]. destruct (dc_lookup x d); reflexivity.
 Qed.
+
+(* ------------------------------------------------------------------------------------ *)
+(* one caller, several data centres *)
+
+Lemma make_request_migrate tbl cat dcs dc a b req code n v fuel :
+  table_ok tbl = true -> In pm_entry tbl -> in_int n = true ->
+  dc_lookup n dcs = Some b ->
+  dc a req = RError code (s_phone_migrate_ ++ dec n) ->
+  dc b req = RValue v ->
+  make_request (S (S fuel)) tbl cat dcs dc a req []
+  = {| c_result := CValue v; c_addr := b; c_writes := [(a, req); (b, req)] |}.
+Proof.
+  intros Hok Hin Hn Hdc Ha Hb.
+  destruct (handle_migrate tbl cat dcs code n Hok Hin Hn) as (e & _ & _ & _ & Hh).
+  rewrite Hdc in Hh.
+  cbn [make_request app]. rewrite Ha, Hh, Hb. reflexivity.
+Qed.
+
+Lemma make_request_unconfigured tbl cat dcs dc a req code n fuel :
+  table_ok tbl = true -> In pm_entry tbl -> in_int n = true ->
+  dc_lookup n dcs = None ->
+  dc a req = RError code (s_phone_migrate_ ++ dec n) ->
+  exists e, n_code e = code /\ n_message e = s_phone_migrate_x /\ n_info e = AInt n /\
+    make_request (S fuel) tbl cat dcs dc a req []
+    = {| c_result := CFailed e NoSuchDC; c_addr := a; c_writes := [(a, req)] |}.
+Proof.
+  intros Hok Hin Hn Hdc Ha.
+  destruct (handle_migrate tbl cat dcs code n Hok Hin Hn) as (e & Hnat & Hm & Hi & Hh).
+  rewrite Hdc in Hh. exists e. repeat split; auto.
+  - apply table_ok_split in Hok. destruct Hok as [Hk _].
+    destruct (to_native_total tbl cat code (s_phone_migrate_ ++ dec n) Hk) as (e' & H1 & H2). congruence.
+  - cbn [make_request app]. rewrite Ha, Hh. reflexivity.
+Qed.
+
+(* any other error: written once, returned, address unchanged *)
+Lemma make_request_other tbl cat dcs dc a req code text e fuel :
+  dc a req = RError code text ->
+  to_native tbl cat code text = Ok e -> n_message e <> s_phone_migrate_x ->
+  make_request (S fuel) tbl cat dcs dc a req []
+  = {| c_result := CFailed e Return; c_addr := a; c_writes := [(a, req)] |}.
+Proof.
+  intros Ha Hn Hm. cbn [make_request app]. rewrite Ha, (handle_other_returned tbl cat dcs code text e Hn Hm).
+  reflexivity.
+Qed.
